@@ -317,6 +317,16 @@ theorem crl_section :
     ["GetCRL", "GetRevokedCertificates", "CreateCRL", "StoreCRL"].all (fun n => crlCalls.any (·.1 == n)) = true := by
   decide +kernel
 
+/-- **no split sections**: no method that takes `adminMutex` calls another lock-taking method before
+    taking it — a validation done under the callee's (read) lock and the mutation done under the
+    caller's own lock would be two sections, and two simultaneous admin requests could both pass the
+    validation (check-then-act). -/
+theorem no_split_sections : splitSections table = [] := by decide +kernel
+
+/-- **no re-entrant locking**: no method calls a lock-taking method while holding `adminMutex`
+    (`sync.RWMutex` is not re-entrant). -/
+theorem no_reentrant_lock : reentrantCalls table = [] := by decide +kernel
+
 /-- nothing in the reviewed-benign list is stale -/
 theorem reviewed_current : reviewedBenign.all (fun x => (unsafeSites table).contains x) = true := by
   decide +kernel
